@@ -654,6 +654,17 @@ impl World {
         (a.len(), b.len())
     }
 
+    /// bids still stored in the old (event-log) format: key and owner
+    pub fn old_bids(&self) -> Vec<(String, String)> {
+        let mut v = vec![];
+        for (k, val) in raw_dump(&self.deps.storage) {
+            if let Entry::Bid2(key, b) = decode_entry(&k, &val) {
+                v.push((key, b.owner.to_string()));
+            }
+        }
+        v
+    }
+
     /// decoded book: asks, V3 bids, contract info
     pub fn book(&self) -> (Vec<(String, AskOrderV1)>, Vec<(String, BidOrderV3)>, Option<ContractInfoV3>) {
         let mut asks = vec![];
